@@ -5,7 +5,7 @@ import ast
 
 import z3
 
-from .pyvc import (Engine, Sym, SInt, SBool, SOpt, STruth, SFloatQuot, SRef, SOptRef, SSeq, SBytes, SStr, Closure,
+from .pyvc import (OpaqueFn, Engine, Sym, SInt, SBool, SOpt, STruth, SFloatQuot, SRef, SOptRef, SSeq, SBytes, SStr, Closure,
                    BoundMethod, ClassInfo, Env, OutOfSubset, PathEnd, PyRaise, _Return, _Break, _Continue, Ref,
                    load_module)
 
@@ -279,7 +279,7 @@ class Interp(Engine):
     def binop(self, op, a, b):
         if not isinstance(a, Sym) and not isinstance(b, Sym):
             return self.concrete_binop(op, a, b)
-        if isinstance(a, SBytes) or isinstance(b, SBytes):
+        if isinstance(a, (SBytes, bytes)) or isinstance(b, (SBytes, bytes)):
             return self.bytes_binop(op, a, b)
         if isinstance(a, (list, tuple)) or isinstance(b, (list, tuple)):
             if isinstance(op, ast.Add) and type(a) is type(b):
